@@ -43,6 +43,13 @@ pub fn run(cx: &mut Ctx) {
         let modes = modes_for(cx, p.src.len(), true);
         check_prog(cx, &p, &modes, &o);
     }
+    // a lawful NON-commutative combiner where the arrival order is the source order: seq = par only if partition
+    // accumulators are merged in partition order
+    let n = cx.budget(150, 1500);
+    crate::pipe::ordered_comb_cases(cx, n, &o);
+    // a legal `Hash` far coarser than `Eq` on the key / element type
+    let n = cx.budget(80, 800);
+    crate::pipe::coarse_hash_cases(cx, n, &o);
     // small-scope exhaustive: all keyed inputs of length <= 4 over 2 keys x all partition counts 1..6
     //   x {gbk, combine(sum), combine lifted after gbk, global(sum, fan-out none/2/3)}
     let maxlen = size_for(cx, 3, 4);
